@@ -21,6 +21,10 @@ FP64_M = 52
 FP64_EONES = 0x7ff
 
 
+PYHASH = z3.Function('pyhash', z3.RealSort(), z3.IntSort())
+PYHASH_INF = 314159      # sys.hash_info.inf (CPython: _PyHASH_INF)
+
+
 class PackedDouble:
     """the bytes object struct.pack('d', x) of a float with (possibly symbolic) bit pattern `bits`"""
     __slots__ = ('bits',)
@@ -813,6 +817,12 @@ class Intrinsics:
         if isinstance(a, int) and isinstance(b, int):
             return a % b
         return simp(as_z3int(a) % as_z3int(b))
+
+    def s_hashq(self, P, q):
+        """assumed stdlib model (DESIGN H3): one uninterpreted H: Q -> Z gives the hash of int, Fraction (and float) values"""
+        if isinstance(q, SymFloat) or isinstance(q, float):
+            raise Unsupported('hashq of a float')
+        return PYHASH(as_z3real(q))
 
     def s_to_real(self, P, a):
         if isinstance(a, bool):
